@@ -75,4 +75,9 @@ SPEC.update({
                   "the generated histories); clock overlay; lease/term assumptions listed in the evidence; extracted "
                   "constants and lock facts via factgen.",
     "technique": "Lean 4 inductive invariant over interleaved op histories + differential correspondence with injected clock + verified monitor",
+    # the C01 clauses of the global allocator in local-TSO mode, of the Tso gRPC handler and of the pd client against a
+    # real server are monitored in the tsoglobal harness (signatures C01.global-*): a short run of it belongs to this check
+    "also": [{"area": "tsoglobal", "harness": "tsoglobal",
+              "gen": {"quick": {"args": ["-n", "8", "-len", "24"], "streams": 1},
+                      "thorough": {"args": ["-n", "60", "-len", "40"], "streams": 2}}}],
 })
